@@ -1248,6 +1248,8 @@ pub enum StatCfg {
     Nz { limbs: usize },
     /// ConstMontyForm::random for a small table modulus (cells = value)
     ConstMonty { modulus_id: usize },
+    /// ConstMontyForm::random for any table modulus: 8 cells = equal eighths of [0, m) (exact cell sizes)
+    ConstMontyRange { modulus_id: usize },
 }
 
 #[derive(Clone, Debug, Serialize, Deserialize)]
@@ -1338,7 +1340,7 @@ fn stat_configs(tier: Tier) -> Vec<StatCfg> {
         v.push(StatCfg::LimbMod { m });
     }
     let widths: &[usize] = match tier {
-        Tier::Quick => &[2],
+        Tier::Quick => &[2, 3],
         Tier::Thorough => &[2, 3, 4],
     };
     for &limbs in widths {
@@ -1373,6 +1375,10 @@ fn stat_configs(tier: Tier) -> Vec<StatCfg> {
         v.push(StatCfg::BitsEveryLength { limbs: 16, boxed: false, int: false, per_len: 512 });
         v.push(StatCfg::BitsEveryLength { limbs: 17, boxed: true, int: false, per_len: 512 });
     }
+    v.push(StatCfg::RandomEveryLimb { limbs: 1, kind: 5, per: 512 }); // Limb::random
+    for limbs in [1usize, 2, 4] {
+        v.push(StatCfg::RandomEveryLimb { limbs, kind: 6, per: 512 }); // ConstMontyForm::random, m = 2^BITS - 1
+    }
     for kind in 0..5u8 {
         for limbs in [1usize, 2, 3, 4, 8] {
             if tier == Tier::Quick && limbs == 8 && kind > 0 {
@@ -1389,6 +1395,12 @@ fn stat_configs(tier: Tier) -> Vec<StatCfg> {
     v.push(StatCfg::Odd { limbs: 2 });
     v.push(StatCfg::Nz { limbs: 1 });
     v.push(StatCfg::ConstMonty { modulus_id: 1 }); // m = 3, one limb
+    for (id, l) in crate::moduli::SMALL_TABLE.iter() {
+        // moduli of at least 8 (so that eighths are non-empty) — every shape in the small table
+        if *l <= 4 && crate::util::bits(&const_modulus_words(*id)) >= 4 {
+            v.push(StatCfg::ConstMontyRange { modulus_id: *id });
+        }
+    }
     v
 }
 
@@ -1481,6 +1493,13 @@ fn exec_stat(p: &StatPlan, out: &mut RunOut) {
                     if big(&w) >= mb {
                         return Err(format!("value {} >= modulus", hexw(&w)));
                     }
+                    for x in 1..j {
+                        for y in 0..x {
+                            if w[x] == w[y] && w[x] != 0 {
+                                return Err(format!("low limbs {} and {} of one draw are equal ({:#018x}): a limb was copied rather than drawn", y, x, w[x]));
+                            }
+                        }
+                    }
                     let a = w[j] as usize;
                     let q = if j > 0 { (w[j - 1] >> 62) as usize } else { 0 };
                     Ok(a * sub_ + q)
@@ -1494,7 +1513,14 @@ fn exec_stat(p: &StatPlan, out: &mut RunOut) {
                         if big(&w) >= mb {
                             return Err(format!("value {} >= modulus", hexw(&w)));
                         }
-                        let a = w[j] as usize;
+                        for x in 1..j {
+                        for y in 0..x {
+                            if w[x] == w[y] && w[x] != 0 {
+                                return Err(format!("low limbs {} and {} of one draw are equal ({:#018x}): a limb was copied rather than drawn", y, x, w[x]));
+                            }
+                        }
+                    }
+                    let a = w[j] as usize;
                         let q = if j > 0 { (w[j - 1] >> 62) as usize } else { 0 };
                         Ok(a * sub_ + q)
                     });
@@ -1562,9 +1588,10 @@ fn exec_stat(p: &StatPlan, out: &mut RunOut) {
             for b in 1..=64 * *limbs as u32 {
                 let mut qq = q.clone();
                 qq.bit_length = b;
-                // bits watched: top (b-1), second (b-2), lowest (0)
-                let watch: Vec<u32> = if b >= 3 { vec![b - 1, b - 2, 0] } else if b == 2 { vec![1, 0] } else { vec![0] };
-                let mut seen = vec![[false; 2]; watch.len()];
+                // every requested bit must come out both 0 and 1 within `per_len` draws: OR / AND accumulators
+                let nl = *limbs;
+                let mut or_acc = vec![0u64; nl];
+                let mut and_acc = vec![u64::MAX; nl];
                 for _ in 0..*per_len {
                     match call(&qq, qq.api, &mut tape) {
                         Res::Val { words, .. } => {
@@ -1572,9 +1599,10 @@ fn exec_stat(p: &StatPlan, out: &mut RunOut) {
                                 out.viol("C19/range", format!("stat:{}", cfgsig), format!("random_bits({b}) returned {} with {} bits", hexw(&words), bits(&words)), None);
                                 return;
                             }
-                            for (k, &bit) in watch.iter().enumerate() {
-                                let v = (words[(bit / 64) as usize] >> (bit % 64)) & 1;
-                                seen[k][v as usize] = true;
+                            for i in 0..nl {
+                                let w = words.get(i).copied().unwrap_or(0);
+                                or_acc[i] |= w;
+                                and_acc[i] &= w;
                             }
                             checked += 1;
                         }
@@ -1584,12 +1612,15 @@ fn exec_stat(p: &StatPlan, out: &mut RunOut) {
                         }
                     }
                 }
-                for (k, &bit) in watch.iter().enumerate() {
-                    if !(seen[k][0] && seen[k][1]) {
+                for bit in 0..b {
+                    let (i, k) = ((bit / 64) as usize, bit % 64);
+                    let never1 = (or_acc[i] >> k) & 1 == 0;
+                    let never0 = (and_acc[i] >> k) & 1 == 1;
+                    if never1 || never0 {
                         out.viol(
                             "C19/never-produced",
                             format!("stat:{}", cfgsig),
-                            format!("random_bits(bit_length={b}): bit {bit} was {} in all {} draws from a uniform stream", if seen[k][1] { "1" } else { "0" }, per_len),
+                            format!("random_bits(bit_length={b}): bit {bit} was {} in all {} draws from a uniform stream", if never0 { "1" } else { "0" }, per_len),
                             None,
                         );
                         return;
@@ -1610,8 +1641,20 @@ fn exec_stat(p: &StatPlan, out: &mut RunOut) {
                 1 => Api::IntRandom,
                 2 => Api::WrappingUint,
                 3 => Api::NzUint,
+                5 => Api::LimbRandom,
+                6 => Api::ConstMonty,
                 _ => Api::OddUint,
             };
+            // kind 6: ConstMontyForm::random for the all-ones table modulus of that width (every bit of the value varies)
+            let mid = if *kind == 6 {
+                crate::moduli::SMALL_TABLE.iter().map(|(i, _)| *i).find(|i| {
+                    let m = const_modulus_words(*i);
+                    m.len() == *limbs && m.iter().all(|w| *w == u64::MAX)
+                })
+            } else {
+                Some(0)
+            };
+            let Some(mid) = mid else { return };
             let q = Plan {
                 api,
                 limbs: *limbs,
@@ -1619,7 +1662,7 @@ fn exec_stat(p: &StatPlan, out: &mut RunOut) {
                 modulus: vec![],
                 bit_length: 0,
                 precision: 64 * *limbs as u32,
-                modulus_id: 0,
+                modulus_id: mid,
                 tape: TapePlan::default(),
                 compare_boxed: false,
                 enumerate_failures: false,
@@ -1627,15 +1670,27 @@ fn exec_stat(p: &StatPlan, out: &mut RunOut) {
                 recover: false,
             };
             let cfgsig = format!("{:?}", p.cfg).replace(' ', "");
-            let watch = [0u32, 31, 32, 63];
-            let mut seen = vec![[[false; 2]; 4]; *limbs];
+            let nl = *limbs;
+            let mut or_acc = vec![0u64; nl];
+            let mut and_acc = vec![u64::MAX; nl];
             let mut n = 0u64;
             for _ in 0..*per {
                 match call(&q, api, &mut tape) {
-                    Res::Val { words, .. } if words.len() == *limbs => {
-                        for (i, w) in words.iter().enumerate() {
-                            for (k, &b) in watch.iter().enumerate() {
-                                seen[i][k][((w >> b) & 1) as usize] = true;
+                    Res::Val { words, .. } if words.len() == nl => {
+                        for i in 0..nl {
+                            or_acc[i] |= words[i];
+                            and_acc[i] &= words[i];
+                            // two limbs of one draw being equal has probability 2^-64: a copied / repeated limb
+                            for j in 0..i {
+                                if words[i] == words[j] {
+                                    out.viol(
+                                        "C19/bias",
+                                        format!("stat:{}", cfgsig),
+                                        format!("{:?} (limbs={}): limbs {} and {} of one draw are equal ({:#018x}) — a limb was copied rather than drawn", api, nl, j, i, words[i]),
+                                        None,
+                                    );
+                                    return;
+                                }
                             }
                         }
                         n += 1;
@@ -1646,16 +1701,18 @@ fn exec_stat(p: &StatPlan, out: &mut RunOut) {
                     }
                 }
             }
-            for i in 0..*limbs {
-                for (k, &b) in watch.iter().enumerate() {
+            for i in 0..nl {
+                for b in 0..64u32 {
                     if *kind == 4 && i == 0 && b == 0 {
                         continue; // the forced low bit of an Odd
                     }
-                    if !(seen[i][k][0] && seen[i][k][1]) {
+                    let never1 = (or_acc[i] >> b) & 1 == 0;
+                    let never0 = (and_acc[i] >> b) & 1 == 1;
+                    if never1 || never0 {
                         out.viol(
                             "C19/never-produced",
                             format!("stat:{}", cfgsig),
-                            format!("{:?} (limbs={}): bit {} of limb {} was {} in all {} draws from a uniform stream", api, limbs, b, i, if seen[i][k][1] { "1" } else { "0" }, per),
+                            format!("{:?} (limbs={}): bit {} of limb {} was {} in all {} draws from a uniform stream", api, nl, b, i, if never0 { "1" } else { "0" }, per),
                             None,
                         );
                         return;
@@ -1691,6 +1748,59 @@ fn exec_stat(p: &StatPlan, out: &mut RunOut) {
                     Ok((v[0] & 0xff) as usize)
                 });
             }, else { return });
+        }
+        StatCfg::ConstMontyRange { modulus_id } => {
+            let m = const_modulus_words(*modulus_id);
+            let mb = big(&m);
+            let q = Plan {
+                api: Api::ConstMonty,
+                limbs: m.len(),
+                front: Front::Infallible,
+                modulus: vec![],
+                bit_length: 0,
+                precision: 0,
+                modulus_id: *modulus_id,
+                tape: TapePlan::default(),
+                compare_boxed: false,
+                enumerate_failures: false,
+                healthy_from: None,
+                recover: false,
+            };
+            // cell k = [ceil(k m / 8), ceil((k+1) m / 8))
+            let bounds: Vec<num_bigint::BigUint> = (0..=8u32).map(|k| (&mb * k + 7u32) / 8u32).collect();
+            let mf = mb.to_string().parse::<f64>().unwrap_or(f64::MAX);
+            let pr: Vec<f64> = (0..8).map(|k| (&bounds[k + 1] - &bounds[k]).to_string().parse::<f64>().unwrap_or(0.0) / mf).collect();
+            let draws_here = draws.min(200_000);
+            let saved = draws;
+            let _ = saved;
+            ncells = 8;
+            probs = pr;
+            label = format!("ConstMontyForm::random modulus_id={modulus_id} m={}", hexw(&m));
+            counts = vec![0u64; 8];
+            let g = guard(|| {
+                for _ in 0..draws_here {
+                    match call(&q, Api::ConstMonty, &mut tape) {
+                        Res::Val { words, .. } => {
+                            let v = big(&words);
+                            if v >= mb {
+                                structural_violation = Some(format!("value {} >= modulus", hexw(&words)));
+                                break;
+                            }
+                            let k = bounds[1..].iter().position(|b| v < *b).unwrap_or(7);
+                            counts[k] += 1;
+                        }
+                        other => {
+                            structural_violation = Some(format!("{:?}", other.kind()));
+                            break;
+                        }
+                    }
+                }
+            });
+            match g {
+                Guarded::Panic(pi) => structural_violation = Some(format!("panic at {}: {}", pi.location, pi.message)),
+                Guarded::Budget => starved = true,
+                _ => {}
+            }
         }
         StatCfg::ConstMonty { modulus_id } => {
             let m = const_modulus_words(*modulus_id);
